@@ -56,7 +56,7 @@ class DA:
 class FakeXarray:
     DataArray = DA
 
-    class Dataset:  # only used in isinstance checks
+    class Dataset:  # only used in isinstance checks (X7 installs the DS model)
         pass
 
 
@@ -527,6 +527,114 @@ def h_reproject_assembly(crs_name, dst_crs):
 
 
 
+class DS:
+    """passive Dataset: named variables sharing coordinates.  map() models xarray's: the function
+    is applied per data variable and -- depending on the xarray release (keep_attrs default) --
+    the attributes of the source variables AND of same-named source coordinates are copied onto
+    the result; which of the two it is, is a symbolic flag of the environment"""
+
+    copies_attrs = False
+
+    def __init__(self, data_vars=None, coords=None, attrs=None):
+        self.data_vars = dict(data_vars or {})
+        self.attrs = dict(attrs or {})
+        self.encoding = {}
+        self.coords = dict(coords or {})
+        for v in self.data_vars.values():
+            for k, c_ in v.coords.items():
+                self.coords.setdefault(k, c_)
+
+    @property
+    def dims(self):
+        out = []
+        for v in self.data_vars.values():
+            for d in v.dims:
+                if d not in out:
+                    out.append(d)
+        return tuple(out)
+
+    def __getitem__(self, k):
+        return self.coords[k] if k in self.coords else self.data_vars[k]
+
+    @property
+    def odc(self):
+        import odc.geo._xr_interop as xr
+
+        return xr.ODCExtensionDs(self)
+
+    def map(self, func, keep_attrs=None, **kw):
+        out = {k: func(v) for k, v in self.data_vars.items()}
+        res = DS(out, attrs=self.attrs if DS.copies_attrs else {})
+        if DS.copies_attrs:
+            for k, v in out.items():
+                v.attrs = dict(self.data_vars[k].attrs)
+            for k, c_ in res.coords.items():
+                if k in self.coords:
+                    c2 = DA(c_.values, dims=c_.dims, attrs=dict(self.coords[k].attrs), name=c_.name)
+                    c2.encoding = dict(c_.encoding)
+                    res.coords[k] = c2
+                    for v in out.values():
+                        if k in v.coords:
+                            v.coords[k] = c2
+        return res
+
+
+def h_reproject_dataset(dst_crs):
+    """xr_reproject of a Dataset: the Dataset and each georegistered variable recover the
+    requested destination GeoBox, CRS included -- whichever way the installed xarray's
+    Dataset.map treats attributes; variables without a GeoBox pass through"""
+    import odc.geo._xr_interop as xr
+    import odc.geo.geobox as gbx
+    from affine import Affine
+
+    from .. import npmodel
+
+    ny, nx = Int("ny", 2), Int("nx", 2)
+    my, mx = Int("my", 2), Int("mx", 2)
+    sa, se, da_, de = Real("sa"), Real("se"), Real("da"), Real("de")
+    assume(And(sa != 0, se != 0, da_ != 0, de != 0))
+    src_g = gbx.GeoBox((ny, nx), Affine(sa, 0.0, Real("sc"), 0.0, se, Real("sf")), "epsg:3857")
+    dst_g = gbx.GeoBox((my, mx), Affine(da_, 0.0, Real("dc"), 0.0, de, Real("df")), dst_crs)
+    if symx.concrete_mode():
+        import numpy as np
+        import xarray
+
+        a = xarray.DataArray(np.zeros((ny, nx), dtype="uint8"), coords=xr.xr_coords(src_g), dims=("y", "x"))
+        ds = xarray.Dataset({"a": a, "b": a + 1, "c": xarray.DataArray([2, 3, 4])})
+        out = xr._xr_reproject_ds(ds, dst_g)
+        for nm, o in (("dataset", out), ("var_a", out.a), ("var_b", out.b)):
+            gb = o.odc.geobox
+            prove(f"{nm}:geobox_is_the_destination", gb is not None and gb.shape == dst_g.shape and gb.crs == dst_g.crs and gb.affine.almost_equals(dst_g.affine, 1e-6 * max(1.0, abs(dst_g.affine.c), abs(dst_g.affine.f))))
+        prove("plain_variable_passes_through", bool((out.c == ds.c).all()))
+        return
+    DS.copies_attrs = bool(Bool("xarray_map_copies_attrs"))  # forks: both xarray behaviours
+    mk = lambda: DAN(_Arr((ny, nx)), coords=xr.xr_coords(src_g), dims=("y", "x"))  # noqa: E731
+    plain = DAN(_Arr((3,)), coords={}, dims=("dim_0",))
+    ds = DS({"a": mk(), "b": mk(), "c": plain})
+    saved = (xr.rio_reproject, npmodel.NP.__dict__.get("empty"), FakeXarray.DataArray, FakeXarray.Dataset)
+    xr.rio_reproject = lambda src_values, dst, s_gbox, d_gbox, **kw: dst
+    npmodel.NP.empty = staticmethod(lambda shape, dtype=None: _Arr(shape, dtype))
+    FakeXarray.DataArray, FakeXarray.Dataset = DAN, DS
+    try:
+        out = xr._xr_reproject_ds(ds, dst_g)
+    finally:
+        xr.rio_reproject, FakeXarray.DataArray, FakeXarray.Dataset = saved[0], saved[2], saved[3]
+        if saved[1] is None:
+            del npmodel.NP.empty
+        else:
+            npmodel.NP.empty = saved[1]
+    A = dst_g.affine
+    for nm, o in (("dataset", out), ("var_a", out.data_vars["a"]), ("var_b", out.data_vars["b"])):
+        gb = xr._locate_geo_info(o).geobox
+        prove(f"{nm}:geobox_recovered", gb is not None)
+        if gb is None:
+            continue
+        B_ = gb.affine
+        prove(f"{nm}:geobox_is_the_destination", And(gb.shape.y == my, gb.shape.x == mx, gb.crs == dst_g.crs, B_.a == A.a, B_.b == A.b, B_.c == A.c, B_.d == A.d, B_.e == A.e, B_.f == A.f))
+    prove("plain_variable_passes_through", out.data_vars["c"].values is plain.values)
+
+
+
 SL_Q = [dict(yn=3, yk=1, xn=4, xk=1), dict(yn=2, yk=2, xn=5, xk=-1), dict(yn=7, yk=-3, xn=2, xk=2)]
 SL_T = SL_Q + [dict(yn=a, yk=b, xn=c, xk=d) for a, b, c, d in ((2, 1, 2, 1), (100, 1, 50, 2), (3, -1, 3, -1), (5, 4, 9, -2), (1000, 3, 2, 7))]
 
@@ -553,6 +661,10 @@ OBLIGATIONS = [
        functions=("odc.geo._xr_interop._xr_reproject_da", "odc.geo._xr_interop.xr_coords", "odc.geo._xr_interop._locate_geo_info", "odc.geo._xr_interop._locate_crs_coords"),
        bounds="source and destination GeoBoxes axis-aligned with symbolic coefficients and shapes (>= 2); leading time axis; CRS coordinate named spatial_ref or crs",
        stubs=("rio_reproject (GDAL warp) recorder", "passive xarray container"), setup=setup),
+    Ob("X7_reproject_dataset", h_reproject_dataset, fixed(dict(dst_crs="epsg:32633"), dict(dst_crs="epsg:3857")),
+       descr="_xr_reproject_ds: Dataset and each georegistered variable recover the destination GeoBox (CRS included) under either attribute behaviour of xarray's Dataset.map; plain variables pass through",
+       functions=("odc.geo._xr_interop._xr_reproject_ds", "odc.geo._xr_interop._xr_reproject_da", "odc.geo._xr_interop._locate_geo_info"),
+       bounds="axis-aligned symbolic source/destination GeoBoxes (shapes >= 2), two georegistered variables and one plain", stubs=("rio_reproject recorder", "passive Dataset whose map() copies source attributes or not (symbolic environment flag)"), setup=setup),
     Ob("X4_gcp_pixel_labels", h_gcp_pixel_labels, tiered(SL_Q[:2] + [dict(yn=1, yk=1, xn=3, xk=1), dict(yn=4, yk=2, xn=1, xk=1), dict(yn=1, yk=1, xn=1, xk=1)], SL_T[:5] + [dict(yn=1, yk=1, xn=3, xk=1), dict(yn=4, yk=2, xn=1, xk=1), dict(yn=1, yk=1, xn=1, xk=1), dict(yn=1, yk=1, xn=5, xk=-2)]), descr="GCP GeoBox pixel labels: the crop/stride affine is recovered from the labels", functions=("odc.geo._xr_interop._mk_pixel_coord", "odc.geo._xr_interop._extract_transform"),
        stubs=("passive xarray container", "LinSeq"), setup=setup),
 ]
